@@ -189,7 +189,24 @@ def g_mult(ctx: Ctx) -> Op:
     from btclib.curves import PreparedPoint, double_mult_var, mult, multi_mult_var  # noqa: PLC0415
 
     ch = ctx.ch
-    kind = ch.pick(["mult", "mult-G", "prepared", "double", "multi"], "mult.kind")
+    kind = ch.pick(["mult", "mult-G", "prepared", "double", "multi", "sibling"], "mult.kind")
+    if kind == "sibling":
+        # secp256k1's field, equation and order under another generator: every parameter the bindings hard-code but
+        # one. Which arm serves such a curve is the dispatch's business; what k*G' is, is not
+        from btclib.curves import Curve, secp256k1  # noqa: PLC0415
+
+        which = ch.pick(["-G", "2G", "kG"], "sibling.G")
+        G2 = (secp256k1.G[0], secp256k1.p - secp256k1.G[1]) if which == "-G" else mult(2 if which == "2G" else 2 + ch.draw(1 << 64, "sibling.k"))
+        sc, m = H.scalar(ch, "sibling.m", False)
+        use = ch.pick(["generator", "point"], "sibling.use")
+
+        def call() -> Any:
+            ec = Curve(secp256k1.p, 0, 7, G2, secp256k1.n, 1, weakness_check=False, order_check=False)
+            if use == "generator":
+                return mult(m, None, ec)
+            return mult(m, ec.G, ec)
+
+        return Op("mult", sc, call, note=f"sibling-curve:{which}:{use}")
     if kind in ("mult", "mult-G", "prepared"):
         d = H.hostile_dim(ch, "mult", 1 if kind == "mult-G" else 2)
         sc, m = H.scalar(ch, "mult.m", d == 0)
